@@ -60,6 +60,32 @@ Definition collect_result (c : collector) (l : list val) : list val :=
 Definition collect_ticks (c : collector) (l : list val) : nat :=
   match c with CSort _ => 0 | _ => length l end.
 
+(* zip of several collections: one pull from each member, left to right; the first exhausted member ends it *)
+Fixpoint zip_go (step : st -> it -> st * outcome) (s : st) (l : list it) (vs : list val) (js : list it)
+  : st * outcome :=
+  match l with
+  | [] => (s, Yield (VList false (rev vs)) (Zip (rev js)))
+  | j :: r =>
+      match step s j with
+      | (s1, Yield v j') => zip_go step s1 r (v :: vs) (j' :: js)
+      | r' => r'
+      end
+  end.
+
+(* slice(n): to_list(islice(collection, n)), empty chunk ends the generator *)
+Fixpoint slice_collect (step : st -> it -> st * outcome) (n : Z) (k : nat) (s : st) (j : it) (acc : list val)
+  : st * outcome :=
+  match k with
+  | O => match acc with [] => (s, Done) | _ => (s, Yield (VList false (rev acc)) (SliceN n j)) end
+  | S k' =>
+      match step s j with
+      | (s1, Yield v j') => slice_collect step n k' s1 j' (v :: acc)
+      | (s1, Done) => match acc with [] => (s1, Done)
+                      | _ => (s1, Yield (VList false (rev acc)) (SliceN n (OfList []))) end
+      | r => r
+      end
+  end.
+
 Fixpoint next (fuel : nat) (s : st) (i : it) {struct fuel} : st * outcome :=
   match fuel with
   | O => (s, NoFuel)
@@ -130,16 +156,7 @@ Fixpoint next (fuel : nat) (s : st) (i : it) {struct fuel} : st * outcome :=
         | r => r
         end
     | Zip [] => (s, Done)
-    | Zip l =>
-        (fix go (s : st) (l : list it) (vs : list val) (js : list it) {struct l} : st * outcome :=
-           match l with
-           | [] => (s, Yield (VList false (rev vs)) (Zip (rev js)))
-           | j :: r =>
-               match next fu s j with
-               | (s1, Yield v j') => go s1 r (v :: vs) (j' :: js)
-               | r' => r'
-               end
-           end) s l [] []
+    | Zip l => zip_go (next fu) s l [] []
     | AccStart f None j =>
         match next fu s j with
         | (s1, Yield v j') => (s1, Yield v (AccRun f v j'))
@@ -185,18 +202,7 @@ Fixpoint next (fuel : nat) (s : st) (i : it) {struct fuel} : st * outcome :=
         | r => r
         end
     | SliceN n j =>
-        if Z.ltb n 0 then (s, Fail EValue) else
-        (fix collect (k : nat) (s : st) (j : it) (acc : list val) {struct k} : st * outcome :=
-           match k with
-           | O => match acc with [] => (s, Done) | _ => (s, Yield (VList false (rev acc)) (SliceN n j)) end
-           | S k' =>
-               match next fu s j with
-               | (s1, Yield v j') => collect k' s1 j' (v :: acc)
-               | (s1, Done) => match acc with [] => (s1, Done)
-                               | _ => (s1, Yield (VList false (rev acc)) (SliceN n (OfList []))) end
-               | r => r
-               end
-           end) (Z.to_nat n) s j []
+        if Z.ltb n 0 then (s, Fail EValue) else slice_collect (next fu) n (Z.to_nat n) s j []
     | SelectMany f j =>
         match next fu s j with
         | (s1, Yield x j') =>
@@ -696,6 +702,7 @@ Inductive obs :=
 | OSet (l : list val)
 | ODict (d : kvs)
 | OErr (e : err)
+| OCap                      (* observation only: the pull cap of the instrumented source tripped *)
 | ONone.                    (* model out of fuel / unsupported: never equal to anything *)
 
 Definition finalize (fuel : nat) (s : st) (r : rv) : st * obs :=
@@ -801,12 +808,19 @@ Definition case_ok (c : case) : bool :=
   end.
 
 (* ---- C14 correspondence case: first k results of a pipeline over the endless source - *)
-Record kcase := { k_start : Z; k_stages : list stage; k_take : nat;
+(* k_take = None: the pipeline ends in a search (first/any/all/indexOf/...) and is evaluated as is *)
+Record kcase := { k_start : Z; k_stages : list stage; k_take : option nat;
                   k_vals : obs; k_pulls : nat; k_ticks : nat }.
 
+Definition CAP : nat := 200.
+
 Definition eval_kcase (c : kcase) : st * obs :=
-  eval_case (SrcSequence (k_start c)) (k_stages c ++ [STake (Z.of_nat (k_take c))]).
+  eval_case (SrcSequence (k_start c))
+            (k_stages c ++ match k_take c with Some k => [STake (Z.of_nat k)] | None => [] end).
 
 Definition kcase_ok (c : kcase) : bool :=
   let '(s, o) := eval_kcase c in
-  obs_eqb o (k_vals c) && Nat.eqb (pulls s) (k_pulls c) && Nat.eqb (ticks s) (k_ticks c).
+  match k_vals c with
+  | OCap => match o with ONone => true | _ => Nat.ltb CAP (pulls s) end
+  | v => obs_eqb o v && Nat.eqb (pulls s) (k_pulls c) && Nat.eqb (ticks s) (k_ticks c) && Nat.leb (pulls s) CAP
+  end.
